@@ -150,6 +150,43 @@ Definition dispatched_ok : bool :=
      else true) pairs.
 
 
+
+(** * the C type MPI associates with each datatype NAME (independent of SimGrid's declarations) *)
+Definition spec_kind (dt : string) : kind :=
+  let m := mems dt in
+  if m ["MPI_CHAR"; "MPI_SIGNED_CHAR"; "MPI_INT8_T"; "MPI_INTEGER1"] then KInt 8 true
+  else if m ["MPI_UNSIGNED_CHAR"; "MPI_UINT8_T"] then KInt 8 false
+  else if m ["MPI_SHORT"; "MPI_INT16_T"; "MPI_INTEGER2"] then KInt 16 true
+  else if m ["MPI_UNSIGNED_SHORT"; "MPI_UINT16_T"] then KInt 16 false
+  else if m ["MPI_INT"; "MPI_INT32_T"; "MPI_INTEGER4"; "MPI_WCHAR"] then KInt 32 true
+  else if m ["MPI_UNSIGNED"; "MPI_UINT32_T"] then KInt 32 false
+  else if m ["MPI_LONG"; "MPI_LONG_LONG"; "MPI_INT64_T"; "MPI_INTEGER8"; "MPI_AINT"; "MPI_OFFSET"; "MPI_COUNT"] then KInt 64 true
+  else if m ["MPI_UNSIGNED_LONG"; "MPI_UNSIGNED_LONG_LONG"; "MPI_UINT64_T"] then KInt 64 false
+  else if m ["MPI_C_BOOL"; "MPI_CXX_BOOL"] then KBool
+  else if m ["MPI_FLOAT"; "MPI_DOUBLE"; "MPI_LONG_DOUBLE"; "MPI_REAL"; "MPI_REAL4"; "MPI_REAL8"; "MPI_REAL16"] then KFloat
+  else if m ["MPI_C_FLOAT_COMPLEX"; "MPI_C_DOUBLE_COMPLEX"; "MPI_C_LONG_DOUBLE_COMPLEX"; "MPI_CXX_FLOAT_COMPLEX";
+             "MPI_CXX_DOUBLE_COMPLEX"; "MPI_CXX_LONG_DOUBLE_COMPLEX"] then KCplx
+  else if m ["MPI_COMPLEX8"; "MPI_COMPLEX16"; "MPI_COMPLEX32"; "MPI_2FLOAT"; "MPI_2DOUBLE"] then KPair KFloat KFloat
+  else if m ["MPI_FLOAT_INT"; "MPI_DOUBLE_INT"; "MPI_LONG_DOUBLE_INT"] then KPair KFloat (KInt 32 true)
+  else if m ["MPI_LONG_INT"] then KPair (KInt 64 true) (KInt 32 true)
+  else if m ["MPI_SHORT_INT"] then KPair (KInt 16 true) (KInt 32 true)
+  else if m ["MPI_2INT"] then KPair (KInt 32 true) (KInt 32 true)
+  else if m ["MPI_2LONG"] then KPair (KInt 64 true) (KInt 64 true)
+  else KOther.
+Fixpoint kind_eqb (a b : kind) : bool :=
+  match a, b with
+  | KInt x s, KInt y t => (x =? y) && Bool.eqb s t
+  | KBool, KBool | KFloat, KFloat | KCplx, KCplx | KOther, KOther => true
+  | KPair v i, KPair w j => kind_eqb v w && kind_eqb i j
+  | _, _ => false
+  end.
+(* every datatype MPI gives a C type to is declared with a C type of that kind (MPI_BYTE: any 8-bit type) *)
+Definition declared_kinds_ok : bool :=
+  forallb (fun d => match spec_kind (fst d) with
+                    | KOther => true
+                    | k => kind_eqb (ctype_kind (fst (snd d))) k
+                    end) dt_decl.
+
 (** * sizes: C types (LP64, x86-64) and the sizes MPI mandates for the sized datatypes *)
 Definition ctype_size (c : string) : Z :=
   let is := String.eqb c in
@@ -190,7 +227,11 @@ Definition run_c31 (inp : list Z) : list Z :=
       if negb (accepted op dt) then [1]
       else match dispatch op dt with
            | None => [2]
-           | Some (c, mac) => 0 :: map2e (elem_op (negb (fixed =? 0)) mac (ctype_kind c)) a b
+           | Some _ =>
+               (* the values are MPI's: the operator's own macro on the C type MPI associates with the datatype name (for
+                  the current tables these are the dispatched ones: C31_accepted_dispatched, C31_table_types, C31_declared_kinds) *)
+               let k := match spec_kind dt with KOther => match assoc dt dt_decl with Some (c, _) => ctype_kind c | None => KOther end | k => k end in
+               0 :: map2e (elem_op (negb (fixed =? 0)) (expected_macro op k) k) a b
            end
   | _ => [-1]
   end.
